@@ -305,6 +305,13 @@ var failKinds = []failKind{
 	{"uncomputable-recursion-3-cycle", `{{if .S}}<a title="{{template "bad3" .}}{{end}}`},
 	{"unbalanced-js-template", "<script>var a = `x</script>"},
 	{"disallowed-attr", `<a onclick="{{.S}}">`},
+	{"range-reentry-through-callee", `<ul>{{range .L}}{{template "li" .}}{{else}}<li title="none{{end}}">x</li></ul>`},
+	{"range-reentry-url-query", `<a href="/p/{{range .L}}{{.}}?{{end}}">x</a>`},
+	{"range-reentry-url-fragment", `<a href="/p/{{range .L}}{{.}}#{{end}}">x</a>`},
+	{"continue-in-other-context", `{{range .L}}<b>{{.}}</b><script>{{if $.S}}{{continue}}{{end}}var r = 1;</script>{{end}}`},
+	{"break-in-attribute", `{{range .L}}<a title="{{if $.S}}{{break}}{{end}}x">{{.}}</a>{{end}}`},
+	{"else-if-chain-attribute-names", `<a {{if .N}}title{{else if .S}}title{{else}}href{{end}}="{{.S}}">x</a>`},
+	{"else-if-chain-attribute-names-2", `<a {{if .N}}title{{else if .S}}href{{else}}title{{end}}="{{.S}}">x</a>`},
 }
 
 func c05Scenario(k failKind) *hist.Scenario {
@@ -314,7 +321,7 @@ func c05Scenario(k failKind) *hist.Scenario {
 		Init: `{{define "bad"}}{{mark "bad"}}BAD` + k.bad + `{{end}}` +
 			`{{define "cb"}}{{mark "cb"}}<p>CB{{template "bad" .}}</p>{{end}}` +
 			`{{define "ccb"}}{{mark "ccb"}}<i>CCB{{template "cb" .}}</i>{{end}}` +
-			`{{define "good"}}<b>{{.S}}</b>{{end}}` +
+			`{{define "good"}}<b>{{.S}}</b>{{end}}{{define "li"}}<li title="{{.}}{{end}}` +
 			`{{define "bad2"}}{{template "bad" .}}{{end}}{{define "bad3"}}x{{template "bad2" .}}{{end}}` +
 			`{{define "rt"}}<em>partial</em><script src="{{.S}}"></script>{{end}}` +
 			`{{define "fix"}}{{mark "fix"}}{{template "bad" .}}x">ok</a>{{end}}` +
